@@ -392,9 +392,17 @@ def partial_digestion(ctx, rep, clause):
                         not any(isinstance(p, ast.Lambda) and any(x is y for y in ast.walk(p)) for p in ast.walk(st)):
                     lits.append(norm_stmt(c.resolve(x)))
         added[val] = lits
-    whole = [t for t in added[False] if t.replace(' ', '') in ('(0,len(annotation),0)', '(0,len(annotation.sequence),0)')]
+    # the whole sequence: (0, <the length handed to build_spans as max_index>, 0)
+    mx = None
+    for x in walk_own(f.node):
+        if isinstance(x, ast.Call) and norm_stmt(x.func) == 'build_spans':
+            mx = next((kw.value for kw in x.keywords if kw.arg == 'max_index'), x.args[0] if x.args else None)
+    if mx is None:
+        raise AnalysisError('digest: the call of build_spans was not found')
+    mx_txt = norm_stmt(c.resolve(mx)).replace(' ', '')
+    whole = [t for t in added[False] if t.replace(' ', '') == f'(0,{mx_txt},0)']
     ob(rep, 'KIND', f.fq, 'partial digestion adds the undigested sequence', len(whole) == 1 and len(added[False]) == 1,
-       '(0, len(annotation), 0)', f'with complete_digestion=False the spans written by hand are {added[False]}', f.loc(),
+       '(0, <max_index>, 0)', f'with complete_digestion=False the spans written by hand are {added[False]}', f.loc(),
        clause)
     ob(rep, 'KIND', f.fq, 'complete digestion adds nothing by hand', not added[True], 'nothing',
        f'with complete_digestion=True the spans {added[True]} are added', f.loc(), clause)
@@ -412,3 +420,5 @@ def check(ctx, rep):
     nonspecific_zero(ctx, rep, 'C06e')
     semi_union(ctx, rep, 'C06f')
     partial_digestion(ctx, rep, 'C06g')
+    from .common import optional_number_tests_rule
+    optional_number_tests_rule(ctx, rep, 'C06c', ('peptacular.spans', 'peptacular.digestion'))
